@@ -232,6 +232,36 @@ func relatedPair(r *rand.Rand, alpha []byte, maxLen int) ([]byte, []byte) {
 	return a, b
 }
 
+// longGapCase builds a pair whose best alignment contains one long gap (two
+// well-matching flanks around an insert of 129..600 characters in one of the
+// sequences) and a matrix under which that is worthwhile. open: gap-open.
+func longGapCase(r *rand.Rand, open float64) (a, b []byte, m align.SubstitutionMatrix) {
+	alpha := []byte("acgt")
+	m = align.SubstitutionMatrix{}
+	for _, x := range alpha {
+		for _, y := range alpha {
+			v := -4.0
+			if x == y {
+				v = 5
+			}
+			m[[2]byte{x, y}] = v
+		}
+		ext := -float64(r.IntN(2)) / 4 // 0 or -0.25 per gapped character
+		m[[2]byte{x, gapB}] = ext
+		m[[2]byte{gapB, x}] = ext
+	}
+	m[[2]byte{gapB, gapB}] = open
+	f1 := randSeq(r, []byte("acg"), 20+r.IntN(30))
+	f2 := randSeq(r, []byte("acg"), 20+r.IntN(30))
+	ins := bytes.Repeat([]byte("t"), pick(r, []int{127, 128, 129, 130, 150, 255, 256, 257, 300, 600}))
+	long := append(append(append([]byte{}, f1...), ins...), f2...)
+	short := append(append([]byte{}, f1...), f2...)
+	if r.IntN(2) == 0 {
+		return long, short, m
+	}
+	return short, long, m
+}
+
 func init() {
 	register(&Property{
 		ID:    "C08",
@@ -286,13 +316,17 @@ func init() {
 	})
 }
 
+// scorescales: integer scores far beyond 2^24 and tiny dyadic scores; all sums
+// stay exact in float64 (|sum| < 2^53 units), so the oracles remain exact.
+var scoreScales = []float64{0, 0, 0, 0, 1000, 1e6, 3e9, 1.0 / (1 << 20), 1 << 30}
+
 func c08Gen(r *rand.Rand, mi int, alpha []byte) (align.SubstitutionMatrix, bool) {
 	local := mi%2 == 0
-	sp := matSpec{alpha: alpha, gapOpen: pick(r, []float64{0, -1, -3, -7}), sym: r.IntN(2) == 0}
+	sp := matSpec{alpha: alpha, gapOpen: pick(r, []float64{0, -1, -3, -7}), sym: r.IntN(2) == 0, scale: pick(r, scoreScales)}
 	if local {
 		sp.gapSign = -1
 	} else if r.IntN(3) == 0 {
-		sp.gapOpen = pick(r, []float64{2, 1, -1})
+		sp.gapOpen = pick(r, []float64{2, 1, -1, -1e9})
 	}
 	return genAlignMatrix(r, sp), local
 }
@@ -331,6 +365,11 @@ func c08Random(c *Ctx) {
 			if k.c.Thorough && r.IntN(200) == 0 {
 				a, b = relatedPair(r, alpha, 900) // a large table
 				k.Count("large_tables", 1)
+			}
+			if r.IntN(40) == 0 {
+				a, b, m = longGapCase(r, pick(r, []float64{0, -3, -7}))
+				local = true
+				k.Count("long_gap_cases", 1)
 			}
 			k.Input("a", a)
 			k.Input("b", b)
@@ -377,7 +416,7 @@ func c08Shipped(c *Ctx) {
 
 func c09Gen(r *rand.Rand, mi int, alpha []byte) (align.SubstitutionMatrix, bool) {
 	local := mi%2 == 0
-	sp := matSpec{alpha: alpha, gapOpen: 0, sym: r.IntN(2) == 0}
+	sp := matSpec{alpha: alpha, gapOpen: 0, sym: r.IntN(2) == 0, scale: pick(r, scoreScales)}
 	if local {
 		sp.gapSign = -1
 	}
@@ -404,6 +443,11 @@ func c09Random(c *Ctx) {
 			alpha := []byte("acgt")[:2+r.IntN(3)]
 			m, local := c09Gen(r, i, alpha)
 			a, b := relatedPair(r, alpha, 60)
+			if r.IntN(40) == 0 {
+				a, b, m = longGapCase(r, 0)
+				local = true
+				k.Count("long_gap_cases", 1)
+			}
 			k.Input("a", a)
 			k.Input("b", b)
 			k.Input("matrix", matrixDesc(m))
@@ -425,6 +469,14 @@ func c09Levenshtein(c *Ctx) {
 				a, b = relatedPair(r, []byte("ab"), 12)
 			} else {
 				a = randBytesExcl(r, r.IntN(50), setOf("\xff"))
+				if r.IntN(3) == 0 { // text with multi-byte UTF-8 runes, in particular those of small code points
+					for j := 1 + r.IntN(4); j > 0; j-- {
+						cp := rune(pick(r, []int{0xFF, 0xFF, 0x80, 0xA0, 0x100, 0x7FF, 0x800, 0xFFFD, 0x10000, 0x80 + r.IntN(0x780)}))
+						pos := r.IntN(len(a) + 1)
+						a = append(a[:pos:pos], append([]byte(string(cp)), a[pos:]...)...)
+					}
+					k.Count("utf8_text_inputs", 1)
+				}
 				b = bytes.ReplaceAll(mutate(r, a, nil), []byte{255}, []byte{0})
 				if r.IntN(5) == 0 {
 					b = randBytesExcl(r, r.IntN(50), setOf("\xff"))
@@ -504,6 +556,33 @@ func c09Tables(c *Ctx) {
 		k.DistinctBC(65536)
 	})
 	c.Exhaustive("tables: all 65536 Levenshtein entries")
+	// Every pair of adjacent byte values (x,y), x,y != 255, as a sequence: the
+	// edit distances to "", to [x] and to [y,x] are known in closed form.
+	for x := 0; x < 255; x++ {
+		c.Case(int64(100+x), func(k *K) {
+			for y := 0; y < 255; y++ {
+				a := []byte{byte(x), byte(y)}
+				for _, tc := range []struct {
+					b    []byte
+					want float64
+				}{{nil, -2}, {[]byte{byte(x)}, -1}, {[]byte{byte(y), byte(x)}, map[bool]float64{true: 0, false: -2}[x == y]}, {a, 0}} {
+					_, g := align.Global(a, tc.b, align.Levenshtein)
+					_, g2 := align.Global(tc.b, a, align.Levenshtein)
+					_, _, _, l := align.Local(a, tc.b, align.Levenshtein)
+					if g != tc.want || g2 != tc.want || l != 0 {
+						k.Input("a", a)
+						k.Input("b", tc.b)
+						k.Failf("levenshtein-pairs", "Levenshtein: Global(%q,%q)=%v, Global swapped=%v (want %v), Local=%v (want 0)", a, tc.b, g, g2, tc.want, l)
+						return
+					}
+				}
+			}
+			k.Count("levenshtein_byte_pairs", 255)
+			k.Evals(254)
+			k.DistinctBC(255)
+		})
+	}
+	c.Exhaustive("tables: all 65025 two-byte sequences (bytes != 255) aligned with Levenshtein against four partners")
 	alpha := append(append([]byte{}, proteinAlphabet...), gapB)
 	for i, nm := range shippedMatrices() {
 		c.Case(int64(1+i), func(k *K) {
@@ -551,7 +630,7 @@ func c09Tables(c *Ctx) {
 // ---------------------------------------------------------------- C10
 
 func c10Gen(r *rand.Rand, mi int, alpha []byte) (align.SubstitutionMatrix, bool) {
-	sp := matSpec{alpha: alpha, gapOpen: pick(r, []float64{-1, -2, -3, -7}), sym: r.IntN(2) == 0, gapSign: -1}
+	sp := matSpec{alpha: alpha, gapOpen: pick(r, []float64{-1, -2, -3, -7}), sym: r.IntN(2) == 0, gapSign: -1, scale: pick(r, scoreScales)}
 	return genAlignMatrix(r, sp), true
 }
 
@@ -575,6 +654,10 @@ func c10Random(c *Ctx) {
 			alpha := []byte("acgt")[:2+r.IntN(3)]
 			m, _ := c10Gen(r, i, alpha)
 			a, b := relatedPair(r, alpha, 60)
+			if r.IntN(40) == 0 {
+				a, b, m = longGapCase(r, pick(r, []float64{-1, -3, -7}))
+				k.Count("long_gap_cases", 1)
+			}
 			k.Input("a", a)
 			k.Input("b", b)
 			k.Input("matrix", matrixDesc(m))
